@@ -39,6 +39,34 @@ def tokamak_spec(geometry="lsn", options=None, **kw):
     return s
 
 
+# a wall with a chamfered (exactly 45 degree) corner, a slanted floor section and a slanted roof section, clockwise as given
+ODD_WALL = [(1.25, -0.43), (1.25, 0.40), (1.30, 0.45), (1.75, 0.47), (1.75, -0.40), (1.70, -0.45)]
+
+
+def odd_spec(geometry="lsn", orthogonal=True, options=None, **kw):
+    """a grid on which no two options that could be confused coincide: every length, count, range and multiplier differs from its default
+    and from its siblings, psi is in other units (x 0.37), the psi array is not square (dR != dZ), profiles are non-trivial, the wall has
+    slanted and 45-degree sections, two boundary guard cells"""
+    o = dict(finecontour_Nfine=40, nx_core=3, nx_pf=3, nx_sol=2, ny_inner_divertor=3, ny_outer_divertor=5, ny_sol=6, ny_inner_sol=4, ny_outer_sol=6,
+             ny_inner_lower_divertor=3, ny_outer_lower_divertor=5, ny_inner_upper_divertor=4, ny_outer_upper_divertor=2,
+             psinorm_core=0.88, psinorm_sol=1.12, psinorm_pf=0.93, y_boundary_guards=2, N_norm_prefactor=1.3,
+             xpoint_poloidal_spacing_length=0.07, target_all_poloidal_spacing_length=0.3, target_outer_lower_poloidal_spacing_length=0.2,
+             psi_spacing_separatrix_multiplier=0.7, orthogonal=bool(orthogonal))
+    if geometry in ("udn", "ldn", "udn2"):
+        o.update(nx_inter_sep=2, psinorm_sol=1.22)
+    if not orthogonal:
+        o.update(nonorthogonal_xpoint_poloidal_spacing_length=0.6, nonorthogonal_target_all_poloidal_spacing_length=1.4,
+                 nonorthogonal_target_inner_lower_poloidal_spacing_length=1.1, nonorthogonal_radial_range_power=1.5,
+                 nonorthogonal_xpoint_poloidal_spacing_range=0.03, nonorthogonal_xpoint_poloidal_spacing_range_inner=0.12,
+                 nonorthogonal_xpoint_poloidal_spacing_range_outer=0.08, nonorthogonal_target_all_poloidal_spacing_range=0.4,
+                 nonorthogonal_target_all_poloidal_spacing_range_inner=0.9, nonorthogonal_target_all_poloidal_spacing_range_outer=1.1)
+    o.update(options or {})
+    s = {"case": "tokamak", "geometry": geometry, "options": o, "fpol": "linear", "pressure": "parab", "wall": ODD_WALL,
+         "mirror": False, "psi_sign": 0.37, "nxg": 65, "nyg": 81, "extract": [], "odd": True}
+    s.update(kw)
+    return s
+
+
 def circular_spec(options=None, **kw):
     o = dict(number_of_processors=1)
     o.update(options or {})
